@@ -1,7 +1,9 @@
 /-
-  Lemmas/Funcs/TplG: the simulation `Tpl.Tpl_Skip_sim` (Lemmas/Funcs/Tpl.lean) GENERALISED from the interface value
-  `iOf B errOf` to ANY interface value `I : SkipNI ρ` over ANY Go-side state type `ρ` that IMPLEMENTS the model back end
-  `B : Backend σ` through an abstraction relation `R : ρ → σ → Prop` (Go-side state, model state):
+  Lemmas/Funcs/TplG: `(SkipDecoderTpl[T]).Skip` (self-recursive, three `for` loops, generic over the back end
+  `SkipDecoderIface`) TRANSLATED from protocol/thrift/skipdecoder_tpl.go (`Verif.Funcs.Tpl_Skip` and its loop functions
+  over an abstract `SkipNI ρ`: generated) is the hand-written model `skipTplAt` (Model/SkipStream.lean), for ANY interface
+  value `I : SkipNI ρ` over ANY Go-side state type `ρ` that IMPLEMENTS a model back end `B : Backend σ` through an
+  abstraction relation `R : ρ → σ → Prop` (Go-side state, model state):
 
       Impl N R I B P :  ∀ p s n, R p s → P s → 0 ≤ n ≤ 2^35 → SSim N R (I.skipN p n) (B.skipN s n.toNat)
 
@@ -17,15 +19,331 @@
           GSim N R (Funcs.Tpl_Skip I fuel p (toI8 t.toNat) d) (skipTplAt B d t s)
       Tpl_Skip_eqG  : the same as an equation through `liftTplG` when `R p s → s = α p`
 
-  This is what connects `BSD_Next` / `SD_Next` (Lemmas/Funcs/Dec.lean), which call the translated generic skipper with the
-  interface value built from the receiver's own TRANSLATED `SkipN`, to the model. `Tpl_Skip_sim` is the instance
-  `ρ = σ`, `R = Eq`, `I = iOf B N.errOf`.  The structure of the proof is that of `Tpl_Skip_sim`; the model-only lemmas
-  (`skipTplAt_dec`, `tplListLoop_le` …) are reused as they are.
+  This is the ONE simulation proof about the generic skipper: `Tpl.Tpl_Skip_sim` / `Tpl_Skip_eq*` (Lemmas/Funcs/Tpl.lean:
+  the model back end itself as the interface value, `ρ = σ`, `R = Eq`, `I = iOf B N.errOf`) and `BSD_Next` / `SD_Next`
+  (Lemmas/Funcs/Dec.lean: the interface value built from the receiver's own TRANSLATED `SkipN`) are instances.
+
+  This file also holds what both need: the error naming (`ErrNaming`, `stdNaming`), `iOf`, `liftTpl`, the measure `Meas`
+  (see Tpl.lean for the discussion of errors and fuel) and the model-only lemmas (`skipTplAt_dec`: a successful skip
+  consumes).
+
+  Shape-robustness (the generated definition changes with every harmless refactoring of the Go source):
+  * the generated LOOP functions are never mentioned: their names are numbered in source order and their parameter
+    lists follow the variables the loop reads, so both change when clauses are reordered or a sub-expression is
+    hoisted.  `counted_simG` (MAP, LIST/SET) and `struct_simG` are about ANY function `L` whose one-step unfolding
+    (`step`, proved by `rfl` at the use site, where unification finds `L`, the loop test `cond`, the counter update
+    `next` and the depth expression) is: test, recursive calls for the element types, continue. The counting direction
+    only enters through `Iter cond next i cnt` ("the counter makes exactly `cnt` more iterations"), for which there is
+    one lemma per idiom (`iter_up`: `for i := 0; i < sz; i++`, `iter_down`: `for n := sz; n > 0; n--`).  The STRUCT loop
+    may be left by `break` or by `return nil` (`stopR`).
+  * the `switch` is handled by a semantic case split on the type byte in which every test is decided, so the order of
+    the clauses does not matter; the byte counts are normalised by `wrap_add_small / wrap_mul_l / wrap_mul_r` whatever
+    the order of the operands; a `SkipN` call is `GSim.call` (continuations on both sides) whatever follows it.
 -/
-import Verif.Lemmas.Funcs.Tpl
+import Verif.Lemmas.Funcs.Skip
+import Verif.Model.SkipStream
 set_option linter.unusedSimpArgs false
 namespace Verif.FuncsEq
 open Verif Verif.GoSem
+
+/-! ## errors: naming the model's `TErr` values as Go error values -/
+
+/-- an injection of the model's errors into `GoErr` (never `nil`) with a left inverse that reads a protocol exception
+    by its type id -/
+structure ErrNaming where
+  errOf : TErr → GoErr
+  absE : GoErr → TErr
+  ne_nil : ∀ e, errOf e ≠ GoErr.nil
+  inv : ∀ e, absE (errOf e) = e
+  pe : ∀ id msg, absE (GoErr.pe id msg) = TErr.pe id
+
+def rName : RErr → String
+  | .eof => "io.EOF"
+  | .noProgress => "io.ErrNoProgress"
+  | .negCount => "bufiox.errNegativeCount"
+  | .src k => "src#" ++ Nat.repr k
+
+def rOfChars (cs : List Char) : RErr :=
+  if cs.take 4 = ['s', 'r', 'c', '#'] then .src (Nat.ofDigitChars 10 (cs.drop 4) 0)
+  else if cs = "io.EOF".toList then .eof
+  else if cs = "io.ErrNoProgress".toList then .noProgress
+  else .negCount
+
+theorem rName_src (k : Nat) : (rName (.src k)).toList = 's' :: 'r' :: 'c' :: '#' :: Nat.toDigits 10 k := by
+  have h : "src#".toList = ['s', 'r', 'c', '#'] := by decide
+  simp only [rName, String.toList_append, Nat.toList_repr, h, List.cons_append, List.nil_append]
+
+theorem rOfChars_rName (e : RErr) : rOfChars (rName e).toList = e := by
+  cases e with
+  | eof => decide
+  | noProgress => decide
+  | negCount => decide
+  | src k =>
+    rw [rName_src]
+    simp [rOfChars, Nat.ofDigitChars_ten_toDigits]
+
+/-- the standard naming: a raw reader error by its name, a wrapped one as `GoSem.wrapErr` names it -/
+def errOfStd : TErr → GoErr
+  | .pe id => .pe id ""
+  | .raw e => .named (rName e)
+  | .wrap e => .named ("wrap:" ++ rName e)
+
+def absStd : GoErr → TErr
+  | .nil => .pe 0
+  | .pe id _ => .pe id
+  | .named s =>
+    if s.toList.take 5 = ['w', 'r', 'a', 'p', ':'] then .wrap (rOfChars (s.toList.drop 5)) else .raw (rOfChars s.toList)
+
+theorem absStd_errOfStd (e : TErr) : absStd (errOfStd e) = e := by
+  cases e with
+  | pe id => rfl
+  | wrap e =>
+    have h : "wrap:".toList = ['w', 'r', 'a', 'p', ':'] := by decide
+    simp [errOfStd, absStd, String.toList_append, h, rOfChars_rName]
+  | raw e =>
+    have h : (rName e).toList.take 5 ≠ ['w', 'r', 'a', 'p', ':'] := by
+      cases e with
+      | eof => decide
+      | noProgress => decide
+      | negCount => decide
+      | src k => rw [rName_src]; simp
+    simp [errOfStd, absStd, h, rOfChars_rName]
+
+theorem wrapErr_errOfStd (e : RErr) : wrapErr (errOfStd (.raw e)) = errOfStd (.wrap e) := rfl
+
+def stdNaming : ErrNaming where
+  errOf := errOfStd
+  absE := absStd
+  ne_nil e := by cases e <;> simp [errOfStd]
+  inv := absStd_errOfStd
+  pe _ _ := rfl
+
+/-! ## the model back end as an instance of the abstract Go interface; the lift -/
+
+/-- `B : Backend σ` as a `SkipDecoderIface` value. A negative count is never passed by `SkipDecoderTpl.Skip`
+    (`Tpl_Skip_sim` never reaches that branch). -/
+def iOf {σ : Type} (B : Backend σ) (errOf : TErr → GoErr) : SkipNI σ where
+  skipN s n :=
+    if n < 0 then .panic "SkipN: negative count"
+    else match B.skipN s n.toNat with
+      | .ok r => .ok ((r.1, GoErr.nil), r.2)
+      | .err e => .ok (([], errOf e), s)
+      | .panic m => .panic m
+      | .oob => .oob
+
+/-- result `(p, err)` of the translated `Skip` (receiver state afterwards, error) as the model's `TOut σ` -/
+def liftTpl {σ : Type} (absE : GoErr → TErr) (x : GM (σ × GoErr)) : TOut σ :=
+  match x with
+  | .ok r => if r.2 = GoErr.nil then .ok r.1 else .err (absE r.2)
+  | .panic s => .panic s
+  | .oob => .oob
+  | .err e => nomatch e
+
+theorem iOf_skipN {σ : Type} (B : Backend σ) (errOf : TErr → GoErr) (s : σ) (n : Int) (h : 0 ≤ n) :
+    (iOf B errOf).skipN s n =
+      match B.skipN s n.toNat with
+      | .ok r => .ok ((r.1, GoErr.nil), r.2)
+      | .err e => .ok (([], errOf e), s)
+      | .panic m => .panic m
+      | .oob => .oob := by
+  have h : ¬ (n < 0) := by omega
+  simp only [iOf, h, if_false]
+
+/-- a measure of what the back end can still deliver, under a back-end invariant `P` -/
+structure Meas {σ : Type} (B : Backend σ) (μ : σ → Nat) (P : σ → Prop) : Prop where
+  dec : ∀ s n b s', P s → n ≤ 34359738368 → B.skipN s n = .ok (b, s') → P s' ∧ μ s' + n ≤ μ s
+  le_avail : ∀ s, P s → μ s ≤ B.avail s
+
+
+namespace Tpl
+variable {σ : Type}
+
+/-- `b[k]` in the translation: the model's `idx` with the byte as an integer -/
+theorem gidx_nat (b : Bytes) (k : Nat) :
+    GoSem.idx b (k : Int) = match b[k]? with | some x => .ok ((x.toNat : Nat) : Int) | none => .panic "index" := by
+  have h : ¬ ((k : Int) < 0) := by omega
+  simp only [GoSem.idx, h, if_false, Int.toNat_natCast]
+  cases b[k]? <;> rfl
+
+theorem gidx0 (b : Bytes) :
+    GoSem.idx b 0 = match b[0]? with | some x => .ok ((x.toNat : Nat) : Int) | none => .panic "index" := gidx_nat b 0
+theorem gidx1 (b : Bytes) :
+    GoSem.idx b 1 = match b[1]? with | some x => .ok ((x.toNat : Nat) : Int) | none => .panic "index" := gidx_nat b 1
+
+
+/-! ## the model consumes: a successful `skipTplAt` lowers the measure by at least 1 -/
+
+theorem bind_ok_inv {ε α β : Type} {x : Out ε α} {f : α → Out ε β} {b : β} (h : x.bind f = .ok b) :
+    ∃ a, x = .ok a ∧ f a = .ok b := by
+  cases x with
+  | ok a => exact ⟨a, rfl, h⟩
+  | err e => cases h
+  | panic m => cases h
+  | oob => cases h
+
+theorem tplListLoop_le {μ : σ → Nat} {P : σ → Prop} {rec' : UInt8 → σ → TOut σ}
+    (hrec : ∀ s t s', P s → rec' t s = .ok s' → P s' ∧ μ s' + 1 ≤ μ s) (vt : UInt8) :
+    ∀ cnt s s', P s → tplListLoop rec' vt cnt s = .ok s' → P s' ∧ μ s' ≤ μ s := by
+  intro cnt
+  induction cnt with
+  | zero => intro s s' hp h; simp only [tplListLoop, Out.ok.injEq] at h; subst h; exact ⟨hp, Nat.le_refl _⟩
+  | succ cnt ih =>
+    intro s s' hp h
+    simp only [tplListLoop, Out.bind_eq] at h
+    obtain ⟨s1, h1, h2⟩ := bind_ok_inv h
+    obtain ⟨hp1, _⟩ := hrec _ _ _ hp h1
+    obtain ⟨hp2, _⟩ := ih _ _ hp1 h2
+    exact ⟨hp2, by omega⟩
+
+theorem tplMapLoop_le {μ : σ → Nat} {P : σ → Prop} {rec' : UInt8 → σ → TOut σ}
+    (hrec : ∀ s t s', P s → rec' t s = .ok s' → P s' ∧ μ s' + 1 ≤ μ s) (kt vt : UInt8) :
+    ∀ cnt s s', P s → tplMapLoop rec' kt vt cnt s = .ok s' → P s' ∧ μ s' ≤ μ s := by
+  intro cnt
+  induction cnt with
+  | zero => intro s s' hp h; simp only [tplMapLoop, Out.ok.injEq] at h; subst h; exact ⟨hp, Nat.le_refl _⟩
+  | succ cnt ih =>
+    intro s s' hp h
+    simp only [tplMapLoop, Out.bind_eq] at h
+    obtain ⟨s1, h1, h2⟩ := bind_ok_inv h
+    obtain ⟨s2, h3, h4⟩ := bind_ok_inv h2
+    obtain ⟨hp1, _⟩ := hrec _ _ _ hp h1
+    obtain ⟨hp2, _⟩ := hrec _ _ _ hp1 h3
+    obtain ⟨hp3, _⟩ := ih _ _ hp2 h4
+    exact ⟨hp3, by omega⟩
+
+theorem tplStructLoop_lt {B : Backend σ} {μ : σ → Nat} {P : σ → Prop} (hM : Meas B μ P) {rec' : UInt8 → σ → TOut σ}
+    (hrec : ∀ s t s', P s → rec' t s = .ok s' → P s' ∧ μ s' + 1 ≤ μ s) :
+    ∀ fuel s s', P s → tplStructLoop B rec' fuel s = .ok s' → P s' ∧ μ s' + 1 ≤ μ s := by
+  intro fuel
+  induction fuel with
+  | zero => intro s s' _ h; simp [tplStructLoop] at h
+  | succ fuel ih =>
+    intro s s' hp h
+    simp only [tplStructLoop, Out.bind_eq] at h
+    obtain ⟨⟨b, s1⟩, h1, h2⟩ := bind_ok_inv h
+    obtain ⟨hp1, d1⟩ := hM.dec _ _ _ _ hp (by omega) h1
+    obtain ⟨tp, _, h3⟩ := bind_ok_inv h2
+    by_cases hstop : tp = T_STOP
+    · simp only [hstop, if_true, Out.pure_eq, Out.ok.injEq] at h3
+      subst h3; exact ⟨hp1, by omega⟩
+    · simp only [hstop, if_false] at h3
+      obtain ⟨⟨b2, s2⟩, h4, h5⟩ := bind_ok_inv h3
+      obtain ⟨hp2, d2⟩ := hM.dec _ _ _ _ hp1 (by omega) h4
+      obtain ⟨s3, h6, h7⟩ := bind_ok_inv h5
+      dsimp only at h6
+      obtain ⟨hp3, _⟩ := hrec _ _ _ hp2 h6
+      obtain ⟨hp4, _⟩ := ih _ _ hp3 h7
+      exact ⟨hp4, by omega⟩
+
+theorem u32of_ok {b : Bytes} {v : Nat} (h : u32of b = .ok v) : (toI32 v).toNat < 2147483648 := by
+  unfold u32of at h
+  by_cases h4 : 4 ≤ b.length
+  · simp only [h4, if_true, Out.ok.injEq] at h
+    subst h
+    have := toI32_range _ (rd32_lt b)
+    omega
+  · simp [h4] at h
+
+/-- every successful `SkipDecoderTpl.Skip` consumes at least one unit of the measure (and keeps the invariant) -/
+theorem skipTplAt_dec {B : Backend σ} {μ : σ → Nat} {P : σ → Prop} (hM : Meas B μ P) :
+    ∀ d t s s', P s → skipTplAt B d t s = .ok s' → P s' ∧ μ s' + 1 ≤ μ s := by
+  intro d
+  induction d with
+  | zero => intro t s s' _ h; simp [skipTplAt] at h
+  | succ d ih =>
+    intro t s s' hp h
+    have hrec : ∀ s t s', P s → skipTplAt B d t s = .ok s' → P s' ∧ μ s' + 1 ≤ μ s := fun s t s' hp h => ih t s s' hp h
+    simp only [skipTplAt, typeSize_eq, Out.bind_eq, Out.bind_ok, Int.toNat_natCast] at h
+    by_cases hfix : ((fixedSize t : Nat) : Int) > 0
+    · simp only [hfix, if_true] at h
+      obtain ⟨⟨b, s1⟩, h1, h2⟩ := bind_ok_inv h
+      have := fixedSize_le t
+      obtain ⟨hp1, _⟩ := hM.dec _ _ _ _ hp (by omega) h1
+      simp only [Out.pure_eq, Out.ok.injEq] at h2
+      subst h2; exact ⟨hp1, by omega⟩
+    · simp only [hfix, if_false] at h
+      by_cases hstr : t = T_STRING
+      · simp only [hstr, if_true] at h
+        obtain ⟨⟨b, s1⟩, h1, h2⟩ := bind_ok_inv h
+        obtain ⟨hp1, _⟩ := hM.dec _ _ _ _ hp (by omega) h1
+        obtain ⟨v, hv, h3⟩ := bind_ok_inv h2
+        have hvl := u32of_ok hv
+        by_cases hn : toI32 v < 0
+        · simp [hn] at h3
+        · simp only [hn, if_false] at h3
+          obtain ⟨⟨b2, s2⟩, h4, h5⟩ := bind_ok_inv h3
+          obtain ⟨hp2, _⟩ := hM.dec _ _ _ _ hp1 (by omega) h4
+          simp only [Out.pure_eq, Out.ok.injEq] at h5
+          subst h5; exact ⟨hp2, by omega⟩
+      · simp only [hstr, if_false] at h
+        by_cases hst : t = T_STRUCT
+        · simp only [hst, if_true] at h
+          exact tplStructLoop_lt hM hrec _ _ _ hp h
+        · simp only [hst, if_false] at h
+          by_cases hmap : t = T_MAP
+          · simp only [hmap, if_true] at h
+            obtain ⟨⟨b, s1⟩, h1, h2⟩ := bind_ok_inv h
+            obtain ⟨hp1, _⟩ := hM.dec _ _ _ _ hp (by omega) h1
+            obtain ⟨kt, _, h3⟩ := bind_ok_inv h2
+            obtain ⟨vt, _, h4⟩ := bind_ok_inv h3
+            obtain ⟨v, hv, h5⟩ := bind_ok_inv h4
+            have hvl := u32of_ok hv
+            by_cases hn : toI32 v < 0
+            · simp [hn] at h5
+            · simp only [hn, if_false] at h5
+              by_cases hfast : ((fixedSize kt : Nat) : Int) > 0 ∧ ((fixedSize vt : Nat) : Int) > 0
+              · simp only [hfast, and_self, if_true] at h5
+                obtain ⟨⟨b2, s2⟩, h6, h7⟩ := bind_ok_inv h5
+                have hk := fixedSize_le kt
+                have hv8 := fixedSize_le vt
+                have hq : (toI32 v).toNat * (fixedSize kt + fixedSize vt) ≤ 2147483648 * 16 :=
+                  Nat.mul_le_mul (by omega) (by omega)
+                obtain ⟨hp2, _⟩ := hM.dec _ _ _ _ hp1 (by omega) h6
+                simp only [Out.pure_eq, Out.ok.injEq] at h7
+                subst h7; exact ⟨hp2, by omega⟩
+              · simp only [hfast, if_false] at h5
+                obtain ⟨hp2, _⟩ := tplMapLoop_le hrec _ _ _ _ _ hp1 h5
+                exact ⟨hp2, by omega⟩
+          · simp only [hmap, if_false] at h
+            by_cases hlist : t = T_SET ∨ t = T_LIST
+            · simp only [hlist, if_true] at h
+              obtain ⟨⟨b, s1⟩, h1, h2⟩ := bind_ok_inv h
+              obtain ⟨hp1, _⟩ := hM.dec _ _ _ _ hp (by omega) h1
+              obtain ⟨vt, _, h3⟩ := bind_ok_inv h2
+              obtain ⟨v, hv, h4⟩ := bind_ok_inv h3
+              have hvl := u32of_ok hv
+              by_cases hn : toI32 v < 0
+              · simp [hn] at h4
+              · simp only [hn, if_false] at h4
+                by_cases hfast : ((fixedSize vt : Nat) : Int) > 0
+                · simp only [hfast, if_true] at h4
+                  obtain ⟨⟨b2, s2⟩, h6, h7⟩ := bind_ok_inv h4
+                  have hv8 := fixedSize_le vt
+                  have hq : (toI32 v).toNat * fixedSize vt ≤ 2147483648 * 8 := Nat.mul_le_mul (by omega) hv8
+                  obtain ⟨hp2, _⟩ := hM.dec _ _ _ _ hp1 (by omega) h6
+                  simp only [Out.pure_eq, Out.ok.injEq] at h7
+                  subst h7; exact ⟨hp2, by omega⟩
+                · simp only [hfast, if_false] at h4
+                  obtain ⟨hp2, _⟩ := tplListLoop_le hrec _ _ _ _ hp1 h4
+                  exact ⟨hp2, by omega⟩
+            · simp [hlist] at h
+
+
+theorem beU32_eq (b : Bytes) : beU32 b = if 4 ≤ b.length then .ok (rd32 b : Int) else .panic "index" := by
+  unfold beU32
+  by_cases h : 4 ≤ b.length
+  · have : ¬ b.length < 4 := by omega
+    simp [h, this]
+  · have : b.length < 4 := by omega
+    simp [h, this]
+
+theorem sliceFrom_ok (b : Bytes) (k : Int) (h0 : 0 ≤ k) (h : k ≤ len b) : sliceFrom b k = .ok (b.drop k.toNat) := by
+  unfold sliceFrom
+  have : ¬ (k < 0 ∨ k > len b) := by omega
+  simp [this]
+
+
+end Tpl
 
 namespace TplG
 open Tpl
@@ -75,114 +393,204 @@ theorem GSim.perr (N : ErrNaming) (R : ρ → σ → Prop) (p : ρ) (id : Int) (
   have := GSim.err (N := N) (R := R) p (GoErr.pe id msg) (by simp)
   rwa [N.pe] at this
 
+/-- a `SkipN` call followed by the rest of the function: `K` is what the translation does with the call's result, `K'`
+    what the model does; on an error value the translation must return it (`herr`). The model's count is given up to
+    an equation (`hy`), so that the order of the factors of a product in the Go source does not matter. -/
+theorem GSim.call {N : ErrNaming} {R : ρ → σ → Prop} {x : GM ((Bytes × GoErr) × ρ)} {y y' : TOut (Bytes × σ)}
+    {K : (Bytes × GoErr) × ρ → GM (ρ × GoErr)} {K' : Bytes × σ → TOut σ}
+    (h : SSim N R x y) (hy : y = y')
+    (hok : ∀ b p s, R p s → y' = .ok (b, s) → GSim N R (K ((b, GoErr.nil), p)) (K' (b, s)))
+    (herr : ∀ b p e, e ≠ GoErr.nil → K ((b, e), p) = .ok (p, e)) :
+    GSim N R (x.bind K) (y'.bind K') := by
+  subst hy
+  cases h with
+  | ok b p s h => exact hok b p s h rfl
+  | err b p e h =>
+    show GSim N R (K ((b, e), p)) _
+    rw [herr b p e h]; exact GSim.err p e h
+  | panic m => exact GSim.panic m
+  | oob => exact GSim.oob
+
+/-- what the loops assume about the recursive call `rec` (translation, at the depth `dp` the loops pass) and `rec'`
+    (model) -/
 structure RecOKG (N : ErrNaming) (R : ρ → σ → Prop) (μ : σ → Nat) (P : σ → Prop) (rec : ρ → Int → Int → GM (ρ × GoErr))
-    (rec' : UInt8 → σ → TOut σ) (md : Int) (bound : Nat) : Prop where
-  sim : ∀ p s t, R p s → P s → μ s ≤ bound → GSim N R (rec p (toI8 t.toNat) (wrap .i64 (md - 1))) (rec' t s)
+    (rec' : UInt8 → σ → TOut σ) (dp : Int) (bound : Nat) : Prop where
+  sim : ∀ p s t, R p s → P s → μ s ≤ bound → GSim N R (rec p (toI8 t.toNat) dp) (rec' t s)
   dec : ∀ s t s', P s → rec' t s = .ok s' → P s' ∧ μ s' + 1 ≤ μ s
 
+/-! ## loops, independent of the names, parameter lists and counting direction of the generated loop functions -/
+
+/-- the recursive calls of ONE iteration of a counted loop as the translator emits them: `Skip(t, depth)` for each `t`,
+    `return err` after each, then the continuation -/
+def seqRec {τ : Type} (rec : ρ → Int → Int → GM (ρ × GoErr)) (dp : Int) :
+    List Int → ρ → (ρ → GM (LoopR (ρ × GoErr) τ)) → GM (LoopR (ρ × GoErr) τ)
+  | [], p, k => k p
+  | t :: ts, p, k => do
+    let r ← rec p t dp
+    if decide (r.2 ≠ GoErr.nil) then pure (LoopR.ret (r.1, r.2)) else seqRec rec dp ts r.1 k
+
+/-- the model's iteration: `rec' t` for each `t`, then the continuation -/
+def seqModel (rec' : UInt8 → σ → TOut σ) : List UInt8 → σ → (σ → TOut σ) → TOut σ
+  | [], s, k => k s
+  | t :: ts, s, k => (rec' t s).bind (fun s1 => seqModel rec' ts s1 k)
+
+/-- the model's counted loop over the element types `ts` -/
+def cntModel (rec' : UInt8 → σ → TOut σ) (ts : List UInt8) : Nat → σ → TOut σ
+  | 0, s => .ok s
+  | c + 1, s => seqModel rec' ts s (cntModel rec' ts c)
+
+theorem tplListLoop_eq (rec' : UInt8 → σ → TOut σ) (vt : UInt8) :
+    ∀ c s, tplListLoop rec' vt c s = cntModel rec' [vt] c s := by
+  intro c
+  induction c with
+  | zero => intro s; rfl
+  | succ c ih =>
+    intro s
+    simp only [tplListLoop, cntModel, seqModel, Out.bind_eq]
+    congr 1; funext s1; exact ih s1
+
+theorem tplMapLoop_eq (rec' : UInt8 → σ → TOut σ) (kt vt : UInt8) :
+    ∀ c s, tplMapLoop rec' kt vt c s = cntModel rec' [kt, vt] c s := by
+  intro c
+  induction c with
+  | zero => intro s; rfl
+  | succ c ih =>
+    intro s
+    simp only [tplMapLoop, cntModel, seqModel, Out.bind_eq]
+    congr 1; funext s1; congr 1; funext s2; exact ih s2
+
+/-- outcome of a translated counted loop against the model loop -/
 inductive LSimG (N : ErrNaming) (R : ρ → σ → Prop) : GM (LoopR (ρ × GoErr) (ρ × Int)) → TOut σ → Prop where
   | done (p : ρ) (s : σ) (j : Int) (h : R p s) : LSimG N R (.ok (LoopR.done (p, j))) (.ok s)
   | err (p : ρ) (e : GoErr) (h : e ≠ GoErr.nil) : LSimG N R (.ok (LoopR.ret (p, e))) (.err (N.absE e))
   | panic (m : String) : LSimG N R (.panic m) (.panic m)
   | oob : LSimG N R .oob .oob
 
-inductive LSim1G (N : ErrNaming) (R : ρ → σ → Prop) : GM (LoopR (ρ × GoErr) ρ) → TOut σ → Prop where
-  | done (p : ρ) (s : σ) (h : R p s) : LSim1G N R (.ok (LoopR.done p)) (.ok s)
-  | err (p : ρ) (e : GoErr) (h : e ≠ GoErr.nil) : LSim1G N R (.ok (LoopR.ret (p, e))) (.err (N.absE e))
-  | panic (m : String) : LSim1G N R (.panic m) (.panic m)
-  | oob : LSim1G N R .oob .oob
+theorem seq_simG {N : ErrNaming} {R : ρ → σ → Prop} {μ : σ → Nat} {P : σ → Prop} {rec rec' dp bound}
+    (H : RecOKG N R μ P rec rec' dp bound) :
+    ∀ (ts : List UInt8) (p : ρ) (s : σ) (k : ρ → GM (LoopR (ρ × GoErr) (ρ × Int))) (k' : σ → TOut σ),
+      R p s → P s → μ s ≤ bound →
+      (∀ p' s', R p' s' → P s' → μ s' + ts.length ≤ μ s → LSimG N R (k p') (k' s')) →
+      LSimG N R (seqRec rec dp (ts.map fun t => toI8 t.toNat) p k) (seqModel rec' ts s k') := by
+  intro ts
+  induction ts with
+  | nil => intro p s k k' hR hp _ hk; exact hk p s hR hp (by simp)
+  | cons t ts ih =>
+    intro p s k k' hR hp hb hk
+    simp only [List.map_cons, seqRec, seqModel, Out.bind_eq]
+    have hs := H.sim p s t hR hp hb
+    have hd := H.dec s t
+    generalize rec p (toI8 t.toNat) dp = x at hs ⊢
+    generalize rec' t s = y at hs hd ⊢
+    cases hs with
+    | ok p1 s1 hR1 =>
+      obtain ⟨hp1, hd1⟩ := hd s1 hp rfl
+      simp only [Out.bind_ok, ne_eq, not_true_eq_false, decide_false, if_false, Bool.false_eq_true]
+      exact ih p1 s1 k k' hR1 hp1 (by omega)
+        (fun p' s' hR' hp' hm => hk p' s' hR' hp' (by simp only [List.length_cons]; omega))
+    | err p1 e h =>
+      simp only [Out.bind_ok, Out.bind_err, ne_eq, h, not_false_eq_true, decide_true, if_true, Out.pure_eq]
+      exact LSimG.err _ e h
+    | panic m => exact LSimG.panic m
+    | oob => exact LSimG.oob
 
-/-! ## the three loops -/
+/-- the loop counter `i` makes exactly `c` more iterations: `cond` holds `c` times along `next`, then fails -/
+def Iter (cond : Int → Bool) (next : Int → Int) : Int → Nat → Prop
+  | i, 0 => cond i = false
+  | i, c + 1 => cond i = true ∧ Iter cond next (next i) c
 
-theorem loop3_simG {N : ErrNaming} {R : ρ → σ → Prop} {μ : σ → Nat} {P : σ → Prop} {I : SkipNI ρ} {rec rec' md bound}
-    (H : RecOKG N R μ P rec rec' md bound) (vt : UInt8) (sz : Nat) (hsz : sz < 2 ^ 31) :
-    ∀ (f : Nat) (p : ρ) (s : σ) (j cnt : Nat), R p s → j + cnt = sz → μ s + 1 ≤ f → μ s ≤ bound → P s →
-      LSimG N R (Funcs.Tpl_Skip_loop3 I rec md (toI8 vt.toNat) (sz : Int) f p (j : Int))
-        (tplListLoop rec' vt cnt s) := by
-  intro f
-  induction f with
-  | zero => intro p s j cnt _ _ hf; omega
-  | succ f ih =>
-    intro p s j cnt hR hj hf hb hp
-    rw [Funcs.Tpl_Skip_loop3]
-    cases cnt with
-    | zero =>
-      have c : ¬ ((j : Int) < (sz : Int)) := by omega
-      simp only [c, decide_false, if_false, Bool.false_eq_true, Out.pure_eq, tplListLoop]
-      exact LSimG.done p s j hR
-    | succ cnt =>
-      have c : ((j : Int) < (sz : Int)) := by omega
-      simp only [c, decide_true, if_true, tplListLoop, Out.bind_eq]
-      have hs := H.sim p s vt hR hp hb
-      have hd := H.dec s vt
-      generalize rec p (toI8 vt.toNat) (wrap .i64 (md - 1)) = x at hs
-      generalize rec' vt s = y at hs hd
-      cases hs with
-      | ok p1 s1 hR1 =>
-        obtain ⟨hp1, hd1⟩ := hd s1 hp rfl
-        have w : wrap .i32 ((j : Int) + 1) = ((j + 1 : Nat) : Int) := by
-          rw [wrap_i32_of_range _ (by omega) (by omega)]; simp
-        simp only [Out.bind_ok, ne_eq, not_true_eq_false, decide_false, if_false, Bool.false_eq_true, w]
-        exact ih p1 s1 (j + 1) cnt hR1 (by omega) (by omega) (by omega) hp1
-      | err p1 e h =>
-        simp only [Out.bind_ok, Out.bind_err, ne_eq, h, not_false_eq_true, decide_true, if_true, Out.pure_eq]
-        exact LSimG.err _ e h
-      | panic m => exact LSimG.panic m
-      | oob => exact LSimG.oob
+/-- counting up: `for i := 0; i < sz; i++` with an `int32` counter -/
+theorem iter_up (cond : Int → Bool) (next : Int → Int) (sz : Nat) (hsz : sz < 2 ^ 31)
+    (hc : ∀ i, cond i = decide (i < (sz : Int))) (hn : ∀ i, next i = wrap .i32 (i + 1)) :
+    ∀ (c j : Nat), j + c = sz → Iter cond next (j : Int) c := by
+  intro c
+  induction c with
+  | zero =>
+    intro j hj
+    have h : ¬ ((j : Int) < (sz : Int)) := by omega
+    simp [Iter, hc, h]
+  | succ c ih =>
+    intro j hj
+    have h : (j : Int) < (sz : Int) := by omega
+    refine ⟨by simp [hc, h], ?_⟩
+    have w : next (j : Int) = ((j + 1 : Nat) : Int) := by
+      rw [hn, wrap_i32_of_range _ (by omega) (by omega)]; simp
+    rw [w]; exact ih (j + 1) (by omega)
 
-theorem loop2_simG {N : ErrNaming} {R : ρ → σ → Prop} {μ : σ → Nat} {P : σ → Prop} {I : SkipNI ρ} {rec rec' md bound}
-    (H : RecOKG N R μ P rec rec' md bound) (kt vt : UInt8) (sz : Nat) (hsz : sz < 2 ^ 31) :
-    ∀ (f : Nat) (p : ρ) (s : σ) (j cnt : Nat), R p s → j + cnt = sz → μ s + 1 ≤ f → μ s ≤ bound → P s →
-      LSimG N R (Funcs.Tpl_Skip_loop2 I rec md (toI8 kt.toNat) (toI8 vt.toNat) (sz : Int) f p (j : Int))
-        (tplMapLoop rec' kt vt cnt s) := by
-  intro f
-  induction f with
-  | zero => intro p s j cnt _ _ hf; omega
-  | succ f ih =>
-    intro p s j cnt hR hj hf hb hp
-    rw [Funcs.Tpl_Skip_loop2]
-    cases cnt with
-    | zero =>
-      have c : ¬ ((j : Int) < (sz : Int)) := by omega
-      simp only [c, decide_false, if_false, Bool.false_eq_true, Out.pure_eq, tplMapLoop]
-      exact LSimG.done p s j hR
-    | succ cnt =>
-      have c : ((j : Int) < (sz : Int)) := by omega
-      simp only [c, decide_true, if_true, tplMapLoop, Out.bind_eq]
-      have hs := H.sim p s kt hR hp hb
-      have hd := H.dec s kt
-      generalize rec p (toI8 kt.toNat) (wrap .i64 (md - 1)) = x at hs
-      generalize rec' kt s = y at hs hd
-      cases hs with
-      | ok p1 s1 hR1 =>
-        obtain ⟨hp1, hd1⟩ := hd s1 hp rfl
-        simp only [Out.bind_ok, ne_eq, not_true_eq_false, decide_false, if_false, Bool.false_eq_true]
-        have hs2 := H.sim p1 s1 vt hR1 hp1 (by omega)
-        have hd2 := H.dec s1 vt
-        generalize rec p1 (toI8 vt.toNat) (wrap .i64 (md - 1)) = x2 at hs2
-        generalize rec' vt s1 = y2 at hs2 hd2
-        cases hs2 with
-        | ok p2 s2 hR2 =>
-          obtain ⟨hp2, hd2'⟩ := hd2 s2 hp1 rfl
-          have w : wrap .i32 ((j : Int) + 1) = ((j + 1 : Nat) : Int) := by
-            rw [wrap_i32_of_range _ (by omega) (by omega)]; simp
-          simp only [Out.bind_ok, ne_eq, not_true_eq_false, decide_false, if_false, Bool.false_eq_true, w]
-          exact ih p2 s2 (j + 1) cnt hR2 (by omega) (by omega) (by omega) hp2
-        | err p2 e h =>
-          simp only [Out.bind_ok, Out.bind_err, ne_eq, h, not_false_eq_true, decide_true, if_true, Out.pure_eq]
-          exact LSimG.err _ e h
-        | panic m => exact LSimG.panic m
-        | oob => exact LSimG.oob
-      | err p1 e h =>
-        simp only [Out.bind_ok, Out.bind_err, ne_eq, h, not_false_eq_true, decide_true, if_true, Out.pure_eq]
-        exact LSimG.err _ e h
-      | panic m => exact LSimG.panic m
-      | oob => exact LSimG.oob
+/-- counting down: `for n := sz; n > 0; n--` with an `int32` counter -/
+theorem iter_down (cond : Int → Bool) (next : Int → Int)
+    (hc : ∀ i, cond i = decide (i > 0)) (hn : ∀ i, next i = wrap .i32 (i - 1)) :
+    ∀ (c : Nat), c < 2 ^ 31 → Iter cond next (c : Int) c := by
+  intro c
+  induction c with
+  | zero => intro _; simp [Iter, hc]
+  | succ c ih =>
+    intro h
+    have h0 : ((c + 1 : Nat) : Int) > 0 := by omega
+    refine ⟨by rw [hc]; exact decide_eq_true h0, ?_⟩
+    have w : next ((c + 1 : Nat) : Int) = (c : Int) := by
+      rw [hn, wrap_i32_of_range _ (by omega) (by omega)]; omega
+    rw [w]; exact ih (by omega)
 
-theorem loop1_simG {N : ErrNaming} {R : ρ → σ → Prop} {I : SkipNI ρ} {B : Backend σ} {μ : σ → Nat} {P : σ → Prop}
-    {rec rec' md bound} (hM : Meas B μ P) (hI : Impl N R I B P) (H : RecOKG N R μ P rec rec' md bound) :
+/-- a counted loop (MAP: `ts = [kt, vt]`, LIST/SET: `ts = [vt]`), whatever the generated loop function `L` is called,
+    whatever parameters it takes and in whichever direction it counts: one iteration (`step`) tests the counter, makes
+    the recursive calls and goes on with the next counter value; the counter makes exactly `cnt` iterations (`Iter`). -/
+theorem counted_simG {N : ErrNaming} {R : ρ → σ → Prop} {μ : σ → Nat} {P : σ → Prop} {rec rec' dp bound}
+    (H : RecOKG N R μ P rec rec' dp bound) (L : Nat → ρ → Int → GM (LoopR (ρ × GoErr) (ρ × Int)))
+    (cond : Int → Bool) (next : Int → Int) (dp' : Int) (ts : List UInt8) (hts : 0 < ts.length)
+    (step : ∀ f p i, L (f + 1) p i =
+      if cond i = true then seqRec rec dp' (ts.map fun t => toI8 t.toNat) p (fun p' => L f p' (next i))
+      else pure (LoopR.done (p, i)))
+    (hdp : dp' = dp) :
+    ∀ (cnt : Nat) (i : Int), Iter cond next i cnt → ∀ (f : Nat) (p : ρ) (s : σ), R p s → μ s + 1 ≤ f → μ s ≤ bound →
+      P s → LSimG N R (L f p i) (cntModel rec' ts cnt s) := by
+  subst hdp
+  intro cnt
+  induction cnt with
+  | zero =>
+    intro i hi f p s hR hf _ _
+    cases f with
+    | zero => omega
+    | succ f =>
+      have hc : cond i = false := hi
+      rw [step, if_neg (by simp [hc])]
+      exact LSimG.done p s i hR
+  | succ cnt ih =>
+    intro i hi f p s hR hf hb hp
+    cases f with
+    | zero => omega
+    | succ f =>
+      obtain ⟨hc, hi'⟩ := hi
+      rw [step, if_pos hc]
+      exact seq_simG H ts p s _ _ hR hp hb
+        (fun p' s' hR' hp' hm => ih (next i) hi' f p' s' hR' (by omega) (by omega) hp')
+
+/-- outcome of the translated STRUCT loop against the model loop; `stopR p` is what the loop function yields at the STOP
+    field (`break`: `LoopR.done p`, or `return nil`: `LoopR.ret (p, nil)`) -/
+inductive LSim1G (N : ErrNaming) (R : ρ → σ → Prop) (stopR : ρ → LoopR (ρ × GoErr) ρ) :
+    GM (LoopR (ρ × GoErr) ρ) → TOut σ → Prop where
+  | stop (p : ρ) (s : σ) (h : R p s) : LSim1G N R stopR (.ok (stopR p)) (.ok s)
+  | err (p : ρ) (e : GoErr) (h : e ≠ GoErr.nil) : LSim1G N R stopR (.ok (LoopR.ret (p, e))) (.err (N.absE e))
+  | panic (m : String) : LSim1G N R stopR (.panic m) (.panic m)
+  | oob : LSim1G N R stopR .oob .oob
+
+/-- the STRUCT loop, whatever the generated loop function `L` is called and however it is left at STOP -/
+theorem struct_simG {N : ErrNaming} {R : ρ → σ → Prop} {I : SkipNI ρ} {B : Backend σ} {μ : σ → Nat} {P : σ → Prop}
+    {rec rec' dp bound} (hM : Meas B μ P) (hI : Impl N R I B P) (H : RecOKG N R μ P rec rec' dp bound)
+    (L : Nat → ρ → GM (LoopR (ρ × GoErr) ρ)) (stopR : ρ → LoopR (ρ × GoErr) ρ) (dp' : Int)
+    (step : ∀ f p, L (f + 1) p = do
+      let t ← I.skipN p 1
+      if decide (t.1.2 ≠ GoErr.nil) then pure (LoopR.ret (t.2, t.1.2)) else do
+      let x ← GoSem.idx t.1.1 0
+      if decide (wrap .i8 x = 0) then pure (stopR t.2) else do
+      let t2 ← I.skipN t.2 2
+      if decide (t2.1.2 ≠ GoErr.nil) then pure (LoopR.ret (t2.2, t2.1.2)) else do
+      let r ← rec t2.2 (wrap .i8 x) dp'
+      if decide (r.2 ≠ GoErr.nil) then pure (LoopR.ret (r.1, r.2)) else L f r.1)
+    (hdp : dp' = dp) :
     ∀ (f1 f2 : Nat) (p : ρ) (s : σ), R p s → μ s + 1 ≤ f1 → μ s + 1 ≤ f2 → μ s ≤ bound → P s →
-      LSim1G N R (Funcs.Tpl_Skip_loop1 I rec md f1 p) (tplStructLoop B rec' f2 s) := by
+      LSim1G N R stopR (L f1 p) (tplStructLoop B rec' f2 s) := by
+  subst hdp
   intro f1
   induction f1 with
   | zero => intro f2 p s _ hf; omega
@@ -191,7 +599,7 @@ theorem loop1_simG {N : ErrNaming} {R : ρ → σ → Prop} {I : SkipNI ρ} {B :
     cases f2 with
     | zero => omega
     | succ f2 =>
-      rw [Funcs.Tpl_Skip_loop1, tplStructLoop]
+      rw [step, tplStructLoop]
       have hc := hI.sim p s 1 hR hp (by omega) (by omega)
       have e1 : (1 : Int).toNat = 1 := rfl
       rw [e1] at hc
@@ -209,7 +617,7 @@ theorem loop1_simG {N : ErrNaming} {R : ρ → σ → Prop} {I : SkipNI ρ} {B :
           by_cases hstop : tp = T_STOP
           · have c0 : toI8 tp.toNat = 0 := (toI8_eq_0 tp).mpr hstop
             simp only [if_pos hstop, c0, decide_true, if_true, Out.pure_eq]
-            exact LSim1G.done p1 s1 hR1
+            exact LSim1G.stop p1 s1 hR1
           · have c0 : ¬ toI8 tp.toNat = 0 := fun h => hstop ((toI8_eq_0 tp).mp h)
             simp only [if_neg hstop, c0, decide_false, if_false, Bool.false_eq_true]
             have hc2 := hI.sim p1 s1 2 hR1 hp1 (by omega) (by omega)
@@ -223,8 +631,8 @@ theorem loop1_simG {N : ErrNaming} {R : ρ → σ → Prop} {I : SkipNI ρ} {B :
               simp only [Out.bind_ok, ne_eq, not_true_eq_false, decide_false, if_false, Bool.false_eq_true]
               have hs := H.sim p2 s2 tp hR2 hp2 (by omega)
               have hd := H.dec s2 tp
-              generalize rec p2 (toI8 tp.toNat) (wrap .i64 (md - 1)) = x3 at hs
-              generalize rec' tp s2 = y3 at hs hd
+              generalize rec p2 (toI8 tp.toNat) dp' = x3 at hs ⊢
+              generalize rec' tp s2 = y3 at hs hd ⊢
               cases hs with
               | ok p3 s3 hR3 =>
                 obtain ⟨hp3, hd3⟩ := hd s3 hp2 rfl
@@ -247,16 +655,59 @@ theorem loop1_simG {N : ErrNaming} {R : ρ → σ → Prop} {I : SkipNI ρ} {B :
       | panic m => exact LSim1G.panic m
       | oob => exact LSim1G.oob
 
+/-- a counted loop followed by what the function does with its outcome (`K`: `return` passed on, `done` = `nil`) -/
+theorem GSim.of_counted {N : ErrNaming} {R : ρ → σ → Prop} {x : GM (LoopR (ρ × GoErr) (ρ × Int))} {y : TOut σ}
+    {K : LoopR (ρ × GoErr) (ρ × Int) → GM (ρ × GoErr)} (h : LSimG N R x y)
+    (hd : ∀ q, K (LoopR.done q) = .ok (q.1, GoErr.nil)) (hr : ∀ r, K (LoopR.ret r) = .ok r) :
+    GSim N R (x.bind K) y := by
+  cases h with
+  | done p s j h => show GSim N R (K _) _; rw [hd]; exact GSim.ok p s h
+  | err p e h => show GSim N R (K _) _; rw [hr]; exact GSim.err p e h
+  | panic m => exact GSim.panic m
+  | oob => exact GSim.oob
+
+/-- the STRUCT loop followed by what the function does with its outcome -/
+theorem GSim.of_struct {N : ErrNaming} {R : ρ → σ → Prop} {stopR : ρ → LoopR (ρ × GoErr) ρ}
+    {x : GM (LoopR (ρ × GoErr) ρ)} {y : TOut σ} {K : LoopR (ρ × GoErr) ρ → GM (ρ × GoErr)} (h : LSim1G N R stopR x y)
+    (hs : ∀ p, K (stopR p) = .ok (p, GoErr.nil)) (hr : ∀ r, K (LoopR.ret r) = .ok r) :
+    GSim N R (x.bind K) y := by
+  cases h with
+  | stop p s h => show GSim N R (K _) _; rw [hs]; exact GSim.ok p s h
+  | err p e h => show GSim N R (K _) _; rw [hr]; exact GSim.err p e h
+  | panic m => exact GSim.panic m
+  | oob => exact GSim.oob
+
+
+/-! ## arithmetic of the byte counts: no `int` wraps, whatever the order of the operands in the Go source -/
+
+theorem wrap_add_small (a b : Nat) (ha : a ≤ 8) (hb : b ≤ 8) :
+    wrap .i64 ((a : Int) + (b : Int)) = ((a + b : Nat) : Int) := by
+  rw [wrap_i64_of_range _ (by omega) (by omega)]; simp
+
+theorem wrap_mul_l (a b : Nat) (ha : a < 2 ^ 31) (hb : b ≤ 16) :
+    wrap .i64 ((a : Int) * (b : Int)) = ((a * b : Nat) : Int) := by
+  have hq : a * b ≤ 2 ^ 31 * 16 := Nat.mul_le_mul (by omega) hb
+  rw [← Int.natCast_mul]
+  generalize a * b = q at hq
+  rw [wrap_i64_of_range _ (by omega) (by omega)]
+
+theorem wrap_mul_r (a b : Nat) (ha : a < 2 ^ 31) (hb : b ≤ 16) :
+    wrap .i64 ((b : Int) * (a : Int)) = ((a * b : Nat) : Int) := by
+  rw [Int.mul_comm]; exact wrap_mul_l a b ha hb
+
+/-- discharges `herr` of `GSim.call`: on an error value the translation returns it -/
+macro "herr_disch" : tactic => `(tactic| (intro _ _ _ h; first | rfl | simp [h, Out.pure_eq]))
+
 /-! ## the whole function, by induction on the depth -/
 
 theorem recOK_of_ihG (N : ErrNaming) {R : ρ → σ → Prop} {I : SkipNI ρ} {B : Backend σ} {μ : σ → Nat} {P : σ → Prop}
-    (hM : Meas B μ P) (d f bound : Nat) (hd : d + 1 < 2 ^ 63) (hf : bound + d + 2 ≤ f)
+    (hM : Meas B μ P) (d f bound : Nat) (hf : bound + d + 2 ≤ f)
     (ih : ∀ (f : Nat) (p : ρ) (s : σ) (t : UInt8) (D : Int), R p s → P s → μ s + d + 2 ≤ f → D = (d : Int) →
       GSim N R (Funcs.Tpl_Skip I f p (toI8 t.toNat) D) (skipTplAt B d t s)) :
-    RecOKG N R μ P (fun a0 a1 a2 => Funcs.Tpl_Skip I f a0 a1 a2) (skipTplAt B d) ((d + 1 : Nat) : Int) bound := by
+    RecOKG N R μ P (fun a0 a1 a2 => Funcs.Tpl_Skip I f a0 a1 a2) (skipTplAt B d) (d : Int) bound := by
   constructor
   · intro p s t hR hp hb
-    exact ih f p s t _ hR hp (by omega) (by rw [wrap_i64_of_range _ (by omega) (by omega)]; omega)
+    exact ih f p s t _ hR hp (by omega) rfl
   · intro s t s' hp h
     exact skipTplAt_dec hM d t s s' hp h
 
@@ -282,240 +733,172 @@ theorem Tpl_Skip_simG (N : ErrNaming) {R : ρ → σ → Prop} {I : SkipNI ρ} {
     cases f with
     | zero => omega
     | succ f =>
-      have H := recOK_of_ihG N (R := R) (I := I) hM d f (μ s) hd (by omega)
+      have H := recOK_of_ihG N (R := R) (I := I) hM d f (μ s) (by omega)
         (fun f p s t D hR h0 h1 h2 => ih f p s t D hR (by omega) h0 h1 h2)
       subst hD
+      -- the depth passed to the recursive calls
+      have hdp : wrap .i64 (((d + 1 : Nat) : Int) - 1) = (d : Int) := by
+        rw [wrap_i64_of_range _ (by omega) (by omega)]; omega
       rw [Funcs.Tpl_Skip]
       have cD : ¬ ((d + 1 : Nat) : Int) = 0 := by omega
       simp only [skipTplAt, cD, decide_false, if_false, Bool.false_eq_true, tblIdx_fixed, typeSize_eq,
-        Out.bind_ok, Out.bind_eq, Out.pure_eq]
+        Out.bind_ok, Out.bind_eq, Out.pure_eq, hdp]
       by_cases hfix : ((fixedSize t : Nat) : Int) > 0
       · simp only [hfix, decide_true, if_true]
         have hk := fixedSize_le t
-        have hc := hI.sim p s ((fixedSize t : Nat) : Int) hR hp (by omega) (by omega)
-        generalize I.skipN p ((fixedSize t : Nat) : Int) = x at hc ⊢
-        generalize B.skipN s ((fixedSize t : Nat) : Int).toNat = y at hc ⊢
-        cases hc with
-        | ok b p1 s1 hR1 => exact GSim.ok _ _ hR1
-        | err b p1 e h => exact GSim.err _ e h
-        | panic m => exact GSim.panic m
-        | oob => exact GSim.oob
+        exact GSim.call (hI.sim p s _ hR hp (by omega) (by omega)) rfl
+          (fun b p1 s1 hR1 _ => GSim.ok _ _ hR1) (by herr_disch)
       · simp only [hfix, decide_false, if_false, Bool.false_eq_true]
+        -- semantic case split on the type byte; in each case EVERY test of the Go `switch` is decided, so the order of
+        -- its clauses does not matter
         by_cases hstr : t = T_STRING
         · have c : toI8 t.toNat = 11 := (toI8_eq_11 t).mpr hstr
-          simp only [if_pos hstr, c, decide_true, if_true]
-          have hc := hI.sim p s 4 hR hp (by omega) (by omega)
-          have e4 : (4 : Int).toNat = 4 := rfl
-          rw [e4] at hc
-          generalize I.skipN p 4 = x at hc ⊢
-          generalize hsk : B.skipN s 4 = y at hc ⊢
-          cases hc with
-          | ok b p1 s1 hR1 =>
-            obtain ⟨hp1, hd1⟩ := hM.dec _ _ _ _ hp (by omega) hsk
-            simp only [Out.bind_ok, ne_eq, not_true_eq_false, decide_false, if_false, Bool.false_eq_true, beU32_eq, u32of]
-            by_cases h4 : 4 ≤ b.length
-            · simp only [h4, if_true, Out.bind_ok, wrap_i32_nat _ (rd32_lt b)]
-              have hr := toI32_range _ (rd32_lt b)
-              generalize toI32 (rd32 b) = n at hr
-              by_cases hn : n < 0
-              · simp only [hn, decide_true, if_true]
-                exact GSim.perr N R p1 2 _
-              · simp only [hn, decide_false, if_false, Bool.false_eq_true]
-                have hc2 := hI.sim p1 s1 n hR1 hp1 (by omega) (by omega)
-                generalize I.skipN p1 n = x2 at hc2 ⊢
-                generalize B.skipN s1 n.toNat = y2 at hc2 ⊢
-                cases hc2 with
-                | ok b2 p2 s2 hR2 =>
-                  simp only [Out.bind_ok, ne_eq, not_true_eq_false, decide_false, if_false, Bool.false_eq_true]
-                  exact GSim.ok _ _ hR2
-                | err b2 p2 e h =>
-                  simp only [Out.bind_ok, Out.bind_err, ne_eq, h, not_false_eq_true, decide_true, if_true]
-                  exact GSim.err _ e h
-                | panic m => exact GSim.panic m
-                | oob => exact GSim.oob
-            · simp only [h4, if_false, Out.bind_panic]
-              exact GSim.panic _
-          | err b p1 e h =>
-            simp only [Out.bind_ok, Out.bind_err, ne_eq, h, not_false_eq_true, decide_true, if_true]
-            exact GSim.err _ e h
-          | panic m => exact GSim.panic m
-          | oob => exact GSim.oob
-        · have c : ¬ toI8 t.toNat = 11 := fun h => hstr ((toI8_eq_11 t).mp h)
-          simp only [if_neg hstr, c, decide_false, if_false, Bool.false_eq_true]
+          simp only [if_pos hstr, c, Int.reduceEq, decide_true, decide_false, Bool.or_false, Bool.false_or, Bool.or_self,
+            if_true, if_false, Bool.false_eq_true]
+          refine GSim.call (hI.sim p s _ hR hp (by omega) (by omega)) rfl (fun b p1 s1 hR1 hsk => ?_) (by herr_disch)
+          obtain ⟨hp1, hd1⟩ := hM.dec _ _ _ _ hp (by omega) hsk
+          simp only [ne_eq, not_true_eq_false, decide_false, if_false, Bool.false_eq_true, beU32_eq, u32of]
+          by_cases h4 : 4 ≤ b.length
+          · simp only [h4, if_true, Out.bind_ok, wrap_i32_nat _ (rd32_lt b)]
+            have hr := toI32_range _ (rd32_lt b)
+            generalize toI32 (rd32 b) = n at hr
+            by_cases hn : n < 0
+            · simp only [hn, decide_true, if_true]
+              exact GSim.perr N R p1 2 _
+            · simp only [hn, decide_false, if_false, Bool.false_eq_true]
+              refine GSim.call (hI.sim p1 s1 _ hR1 hp1 (by omega) (by omega)) rfl (fun b2 p2 s2 hR2 _ => ?_)
+                (by herr_disch)
+              first
+              | exact GSim.ok _ _ hR2
+              | (simp only [ne_eq, not_true_eq_false, decide_false, if_false, Bool.false_eq_true]; exact GSim.ok _ _ hR2)
+          · simp only [h4, if_false, Out.bind_panic]
+            exact GSim.panic _
+        · have n11 : ¬ toI8 t.toNat = 11 := fun h => hstr ((toI8_eq_11 t).mp h)
           by_cases hst : t = T_STRUCT
           · have c : toI8 t.toNat = 12 := (toI8_eq_tag t 12 (by omega)).mpr hst
-            simp only [if_pos hst, c, decide_true, if_true]
-            have hl := loop1_simG hM hI H f (B.avail s + 1) p s hR (by omega)
-              (by have := hM.le_avail s hp; omega) (Nat.le_refl _) hp
-            generalize Funcs.Tpl_Skip_loop1 _ _ _ _ _ = x at hl ⊢
-            generalize tplStructLoop _ _ _ _ = y at hl ⊢
-            cases hl with
-            | done p1 s1 hR1 => exact GSim.ok p1 s1 hR1
-            | err p1 e h => exact GSim.err p1 e h
-            | panic m => exact GSim.panic m
-            | oob => exact GSim.oob
-          · have c : ¬ toI8 t.toNat = 12 := fun h => hst ((toI8_eq_tag t 12 (by omega)).mp h)
-            simp only [if_neg hst, c, decide_false, if_false, Bool.false_eq_true]
+            simp only [if_neg hstr, if_pos hst, c, Int.reduceEq, decide_true, decide_false, Bool.or_false, Bool.false_or,
+              Bool.or_self, if_true, if_false, Bool.false_eq_true]
+            have hav := hM.le_avail s hp
+            first
+            | exact GSim.of_struct (struct_simG hM hI H _ LoopR.done _ (fun _ _ => by rfl)
+                (by first | rfl | exact hdp) f (B.avail s + 1) p s hR (by omega) (by omega) (Nat.le_refl _) hp)
+                (fun _ => rfl) (fun _ => rfl)
+            | exact GSim.of_struct (struct_simG hM hI H _ (fun p => LoopR.ret (p, GoErr.nil)) _ (fun _ _ => by rfl)
+                (by first | rfl | exact hdp) f (B.avail s + 1) p s hR (by omega) (by omega) (Nat.le_refl _) hp)
+                (fun _ => rfl) (fun _ => rfl)
+          · have n12 : ¬ toI8 t.toNat = 12 := fun h => hst ((toI8_eq_tag t 12 (by omega)).mp h)
             by_cases hmap : t = T_MAP
             · have c : toI8 t.toNat = 13 := (toI8_eq_tag t 13 (by omega)).mpr hmap
-              simp only [if_pos hmap, c, decide_true, if_true]
-              have hc := hI.sim p s 6 hR hp (by omega) (by omega)
-              have e6 : (6 : Int).toNat = 6 := rfl
-              rw [e6] at hc
-              generalize I.skipN p 6 = x at hc ⊢
-              generalize hsk : B.skipN s 6 = y at hc ⊢
-              cases hc with
-              | ok b p1 s1 hR1 =>
-                obtain ⟨hp1, hd1⟩ := hM.dec _ _ _ _ hp (by omega) hsk
-                simp only [Out.bind_ok, ne_eq, not_true_eq_false, decide_false, if_false, Bool.false_eq_true,
-                  gidx0, gidx1, Verif.idx]
-                cases hb0 : b[0]? with
+              simp only [if_neg hstr, if_neg hst, if_pos hmap, c, Int.reduceEq, decide_true, decide_false, Bool.or_false,
+                Bool.false_or, Bool.or_self, if_true, if_false, Bool.false_eq_true]
+              refine GSim.call (hI.sim p s _ hR hp (by omega) (by omega)) rfl (fun b p1 s1 hR1 hsk => ?_)
+                (by herr_disch)
+              obtain ⟨hp1, hd1⟩ := hM.dec _ _ _ _ hp (by omega) hsk
+              simp only [ne_eq, not_true_eq_false, decide_false, if_false, Bool.false_eq_true, gidx0, gidx1, Verif.idx]
+              cases hb0 : b[0]? with
+              | none => exact GSim.panic _
+              | some kt =>
+                simp only [Out.bind_ok]
+                cases hb1 : b[1]? with
                 | none => exact GSim.panic _
-                | some kt =>
-                  simp only [Out.bind_ok]
-                  cases hb1 : b[1]? with
-                  | none => exact GSim.panic _
-                  | some vt =>
-                    have hlen : 2 ≤ b.length := by
-                      obtain ⟨h, _⟩ := List.getElem?_eq_some_iff.mp hb1; omega
-                    simp only [Out.bind_ok, sliceFrom_ok b 2 (by omega) (by unfold len; omega), beU32_eq, u32of]
-                    have e2 : (2 : Int).toNat = 2 := rfl
-                    rw [e2]
-                    generalize b.drop 2 = b2
-                    by_cases h4 : 4 ≤ b2.length
-                    · simp only [h4, if_true, Out.bind_ok, wrap_i32_nat _ (rd32_lt b2)]
-                      have hr := toI32_range _ (rd32_lt b2)
-                      generalize toI32 (rd32 b2) = n at hr
-                      by_cases hn : n < 0
-                      · simp only [hn, decide_true, if_true]
-                        exact GSim.perr N R p1 2 _
-                      · simp only [hn, decide_false, if_false, Bool.false_eq_true, wrap_i8_nat _ vt.toNat_lt,
-                          wrap_i8_nat _ kt.toNat_lt, tblIdx_fixed, Out.bind_ok]
-                        obtain ⟨sz, rfl⟩ := Int.eq_ofNat_of_zero_le (by omega : 0 ≤ n)
-                        have hs : sz < 2 ^ 31 := by omega
-                        simp only [Int.toNat_natCast]
-                        by_cases hfast : ((fixedSize kt : Nat) : Int) > 0 ∧ ((fixedSize vt : Nat) : Int) > 0
-                        · have hk := fixedSize_le kt
-                          have hv := fixedSize_le vt
-                          have hq : sz * (fixedSize kt + fixedSize vt) ≤ 2 ^ 31 * 16 :=
-                            Nat.mul_le_mul (by omega) (by omega)
-                          have e0 : wrap .i64 (((fixedSize kt : Nat) : Int) + ((fixedSize vt : Nat) : Int)) =
-                              ((fixedSize kt + fixedSize vt : Nat) : Int) := by
-                            rw [wrap_i64_of_range _ (by omega) (by omega)]; simp
-                          have e1 : ((sz : Int) * ((fixedSize kt + fixedSize vt : Nat) : Int)) =
-                              ((sz * (fixedSize kt + fixedSize vt) : Nat) : Int) := by simp
-                          rw [e0, e1]
-                          generalize sz * (fixedSize kt + fixedSize vt) = q at hq
-                          rw [wrap_i64_of_range (q : Int) (by omega) (by omega)]
-                          simp only [hfast, and_self, decide_true, Bool.and_self, if_true]
-                          have hc2 := hI.sim p1 s1 (q : Int) hR1 hp1 (by omega) (by omega)
-                          rw [Int.toNat_natCast] at hc2
-                          generalize I.skipN p1 (q : Int) = x2 at hc2 ⊢
-                          generalize B.skipN s1 q = y2 at hc2 ⊢
-                          cases hc2 with
-                          | ok b3 p2 s2 hR2 => exact GSim.ok _ _ hR2
-                          | err b3 p2 e h => exact GSim.err _ e h
-                          | panic m => exact GSim.panic m
-                          | oob => exact GSim.oob
-                        · have cfast : (decide (((fixedSize kt : Nat) : Int) > 0) &&
-                              decide (((fixedSize vt : Nat) : Int) > 0)) = false := by
-                            simpa using hfast
-                          simp only [hfast, cfast, if_false, Bool.false_eq_true]
-                          have hl := loop2_simG (I := I) H kt vt sz hs f p1 s1 0 sz hR1 (by omega) (by omega)
-                            (by omega) hp1
-                          simp only [Int.natCast_zero] at hl
-                          generalize Funcs.Tpl_Skip_loop2 _ _ _ _ _ _ _ _ _ = x2 at hl ⊢
-                          generalize tplMapLoop _ _ _ _ _ = y2 at hl ⊢
-                          cases hl with
-                          | done p2 s2 j hR2 => exact GSim.ok p2 s2 hR2
-                          | err p2 e h => exact GSim.err p2 e h
-                          | panic m => exact GSim.panic m
-                          | oob => exact GSim.oob
-                    · simp only [h4, if_false, Out.bind_panic]
-                      exact GSim.panic _
-              | err b p1 e h =>
-                simp only [Out.bind_ok, Out.bind_err, ne_eq, h, not_false_eq_true, decide_true, if_true]
-                exact GSim.err _ e h
-              | panic m => exact GSim.panic m
-              | oob => exact GSim.oob
-            · have c : ¬ toI8 t.toNat = 13 := fun h => hmap ((toI8_eq_tag t 13 (by omega)).mp h)
-              simp only [if_neg hmap, c, decide_false, if_false, Bool.false_eq_true]
+                | some vt =>
+                  have hlen : 2 ≤ b.length := by
+                    obtain ⟨h, _⟩ := List.getElem?_eq_some_iff.mp hb1; omega
+                  simp only [Out.bind_ok, sliceFrom_ok b 2 (by omega) (by unfold len; omega), beU32_eq, u32of]
+                  have e2 : (2 : Int).toNat = 2 := rfl
+                  rw [e2]
+                  generalize b.drop 2 = b2
+                  by_cases h4 : 4 ≤ b2.length
+                  · simp only [h4, if_true, Out.bind_ok, wrap_i32_nat _ (rd32_lt b2)]
+                    have hr := toI32_range _ (rd32_lt b2)
+                    generalize toI32 (rd32 b2) = n at hr
+                    by_cases hn : n < 0
+                    · simp only [hn, decide_true, if_true]
+                      exact GSim.perr N R p1 2 _
+                    · simp only [hn, decide_false, if_false, Bool.false_eq_true, wrap_i8_nat _ vt.toNat_lt,
+                        wrap_i8_nat _ kt.toNat_lt, tblIdx_fixed, Out.bind_ok]
+                      obtain ⟨sz, rfl⟩ := Int.eq_ofNat_of_zero_le (by omega : 0 ≤ n)
+                      have hs : sz < 2 ^ 31 := by omega
+                      simp only [Int.toNat_natCast]
+                      have hk := fixedSize_le kt
+                      have hv := fixedSize_le vt
+                      by_cases hfast : ((fixedSize kt : Nat) : Int) > 0 ∧ ((fixedSize vt : Nat) : Int) > 0
+                      · have hq1 : sz * (fixedSize kt + fixedSize vt) ≤ 2 ^ 31 * 16 :=
+                          Nat.mul_le_mul (by omega) (by omega)
+                        have hq2 : sz * (fixedSize vt + fixedSize kt) ≤ 2 ^ 31 * 16 :=
+                          Nat.mul_le_mul (by omega) (by omega)
+                        simp (disch := omega) only [hfast, and_self, decide_true, Bool.and_self, if_true,
+                          wrap_add_small, wrap_mul_l, wrap_mul_r]
+                        exact GSim.call (hI.sim p1 s1 _ hR1 hp1 (by omega) (by omega))
+                          (by first | rfl | (simp only [Int.toNat_natCast]; congr_omega))
+                          (fun b3 p2 s2 hR2 _ => GSim.ok _ _ hR2) (by herr_disch)
+                      · have cfast1 : (decide (((fixedSize kt : Nat) : Int) > 0) &&
+                            decide (((fixedSize vt : Nat) : Int) > 0)) = false := by
+                          simpa using hfast
+                        simp only [hfast, cfast1, if_false, Bool.false_eq_true, tplMapLoop_eq]
+                        exact GSim.of_counted (counted_simG H _ _ _ _ [kt, vt] (by simp) (fun _ _ _ => by rfl)
+                          (by first | rfl | exact hdp) sz _
+                          (by first
+                            | exact iter_up _ _ sz hs (fun _ => rfl) (fun _ => rfl) sz 0 (by omega)
+                            | exact iter_down _ _ (fun _ => rfl) (fun _ => rfl) sz hs)
+                          f p1 s1 hR1 (by omega) (by omega) hp1) (fun _ => rfl) (fun _ => rfl)
+                  · simp only [h4, if_false, Out.bind_panic]
+                    exact GSim.panic _
+            · have n13 : ¬ toI8 t.toNat = 13 := fun h => hmap ((toI8_eq_tag t 13 (by omega)).mp h)
               by_cases hlist : t = T_SET ∨ t = T_LIST
-              · have c : (decide (toI8 t.toNat = 14) || decide (toI8 t.toNat = 15)) = true := by
+              · have o1 : (decide (toI8 t.toNat = 14) || decide (toI8 t.toNat = 15)) = true := by
                   rcases hlist with h | h
                   · have := (toI8_eq_tag t 14 (by omega)).mpr h; simp [this]
                   · have := (toI8_eq_tag t 15 (by omega)).mpr h; simp [this]
-                simp only [if_pos hlist, c, if_true]
-                have hc := hI.sim p s 5 hR hp (by omega) (by omega)
-                have e5 : (5 : Int).toNat = 5 := rfl
-                rw [e5] at hc
-                generalize I.skipN p 5 = x at hc ⊢
-                generalize hsk : B.skipN s 5 = y at hc ⊢
-                cases hc with
-                | ok b p1 s1 hR1 =>
-                  obtain ⟨hp1, hd1⟩ := hM.dec _ _ _ _ hp (by omega) hsk
-                  simp only [Out.bind_ok, ne_eq, not_true_eq_false, decide_false, if_false, Bool.false_eq_true,
-                    gidx0, Verif.idx]
-                  cases hb0 : b[0]? with
-                  | none => exact GSim.panic _
-                  | some vt =>
-                    have hlen : 1 ≤ b.length := by
-                      obtain ⟨h, _⟩ := List.getElem?_eq_some_iff.mp hb0; omega
-                    simp only [Out.bind_ok, sliceFrom_ok b 1 (by omega) (by unfold len; omega), beU32_eq, u32of]
-                    have e1 : (1 : Int).toNat = 1 := rfl
-                    rw [e1]
-                    generalize b.drop 1 = b2
-                    by_cases h4 : 4 ≤ b2.length
-                    · simp only [h4, if_true, Out.bind_ok, wrap_i32_nat _ (rd32_lt b2)]
-                      have hr := toI32_range _ (rd32_lt b2)
-                      generalize toI32 (rd32 b2) = n at hr
-                      by_cases hn : n < 0
-                      · simp only [hn, decide_true, if_true]
-                        exact GSim.perr N R p1 2 _
-                      · simp only [hn, decide_false, if_false, Bool.false_eq_true, wrap_i8_nat _ vt.toNat_lt,
-                          tblIdx_fixed, Out.bind_ok]
-                        obtain ⟨sz, rfl⟩ := Int.eq_ofNat_of_zero_le (by omega : 0 ≤ n)
-                        have hs : sz < 2 ^ 31 := by omega
-                        simp only [Int.toNat_natCast]
-                        by_cases hfast : ((fixedSize vt : Nat) : Int) > 0
-                        · have hv := fixedSize_le vt
-                          have hq : sz * fixedSize vt ≤ 2 ^ 31 * 8 := Nat.mul_le_mul (by omega) hv
-                          have e1 : ((sz : Int) * ((fixedSize vt : Nat) : Int)) = ((sz * fixedSize vt : Nat) : Int) := by
-                            simp
-                          rw [e1]
-                          generalize sz * fixedSize vt = q at hq
-                          rw [wrap_i64_of_range (q : Int) (by omega) (by omega)]
-                          simp only [hfast, decide_true, if_true]
-                          have hc2 := hI.sim p1 s1 (q : Int) hR1 hp1 (by omega) (by omega)
-                          rw [Int.toNat_natCast] at hc2
-                          generalize I.skipN p1 (q : Int) = x2 at hc2 ⊢
-                          generalize B.skipN s1 q = y2 at hc2 ⊢
-                          cases hc2 with
-                          | ok b3 p2 s2 hR2 => exact GSim.ok _ _ hR2
-                          | err b3 p2 e h => exact GSim.err _ e h
-                          | panic m => exact GSim.panic m
-                          | oob => exact GSim.oob
-                        · simp only [hfast, decide_false, if_false, Bool.false_eq_true]
-                          have hl := loop3_simG (I := I) H vt sz hs f p1 s1 0 sz hR1 (by omega) (by omega)
-                            (by omega) hp1
-                          simp only [Int.natCast_zero] at hl
-                          generalize Funcs.Tpl_Skip_loop3 _ _ _ _ _ _ _ _ = x2 at hl ⊢
-                          generalize tplListLoop _ _ _ _ = y2 at hl ⊢
-                          cases hl with
-                          | done p2 s2 j hR2 => exact GSim.ok p2 s2 hR2
-                          | err p2 e h => exact GSim.err p2 e h
-                          | panic m => exact GSim.panic m
-                          | oob => exact GSim.oob
-                    · simp only [h4, if_false, Out.bind_panic]
-                      exact GSim.panic _
-                | err b p1 e h =>
-                  simp only [Out.bind_ok, Out.bind_err, ne_eq, h, not_false_eq_true, decide_true, if_true]
-                  exact GSim.err _ e h
-                | panic m => exact GSim.panic m
-                | oob => exact GSim.oob
-              · have c1 : ¬ toI8 t.toNat = 14 := fun h => hlist (Or.inl ((toI8_eq_tag t 14 (by omega)).mp h))
-                have c2 : ¬ toI8 t.toNat = 15 := fun h => hlist (Or.inr ((toI8_eq_tag t 15 (by omega)).mp h))
-                simp only [if_neg hlist, c1, c2, decide_false, if_false, Bool.false_eq_true, Bool.or_self]
+                have o2 : (decide (toI8 t.toNat = 15) || decide (toI8 t.toNat = 14)) = true := by
+                  rw [Bool.or_comm]; exact o1
+                simp only [if_neg hstr, if_neg hst, if_neg hmap, if_pos hlist, n11, n12, n13, o1, o2, decide_false,
+                  if_true, if_false, Bool.false_eq_true]
+                refine GSim.call (hI.sim p s _ hR hp (by omega) (by omega)) rfl (fun b p1 s1 hR1 hsk => ?_)
+                  (by herr_disch)
+                obtain ⟨hp1, hd1⟩ := hM.dec _ _ _ _ hp (by omega) hsk
+                simp only [ne_eq, not_true_eq_false, decide_false, if_false, Bool.false_eq_true, gidx0, Verif.idx]
+                cases hb0 : b[0]? with
+                | none => exact GSim.panic _
+                | some vt =>
+                  have hlen : 1 ≤ b.length := by
+                    obtain ⟨h, _⟩ := List.getElem?_eq_some_iff.mp hb0; omega
+                  simp only [Out.bind_ok, sliceFrom_ok b 1 (by omega) (by unfold len; omega), beU32_eq, u32of]
+                  have e1 : (1 : Int).toNat = 1 := rfl
+                  rw [e1]
+                  generalize b.drop 1 = b2
+                  by_cases h4 : 4 ≤ b2.length
+                  · simp only [h4, if_true, Out.bind_ok, wrap_i32_nat _ (rd32_lt b2)]
+                    have hr := toI32_range _ (rd32_lt b2)
+                    generalize toI32 (rd32 b2) = n at hr
+                    by_cases hn : n < 0
+                    · simp only [hn, decide_true, if_true]
+                      exact GSim.perr N R p1 2 _
+                    · simp only [hn, decide_false, if_false, Bool.false_eq_true, wrap_i8_nat _ vt.toNat_lt,
+                        tblIdx_fixed, Out.bind_ok]
+                      obtain ⟨sz, rfl⟩ := Int.eq_ofNat_of_zero_le (by omega : 0 ≤ n)
+                      have hs : sz < 2 ^ 31 := by omega
+                      simp only [Int.toNat_natCast]
+                      have hv := fixedSize_le vt
+                      by_cases hfast : ((fixedSize vt : Nat) : Int) > 0
+                      · have hq : sz * fixedSize vt ≤ 2 ^ 31 * 8 := Nat.mul_le_mul (by omega) hv
+                        simp (disch := omega) only [hfast, decide_true, if_true, wrap_mul_l, wrap_mul_r]
+                        exact GSim.call (hI.sim p1 s1 _ hR1 hp1 (by omega) (by omega))
+                          (by first | rfl | (simp only [Int.toNat_natCast]; congr_omega))
+                          (fun b3 p2 s2 hR2 _ => GSim.ok _ _ hR2) (by herr_disch)
+                      · simp only [hfast, decide_false, if_false, Bool.false_eq_true, tplListLoop_eq]
+                        exact GSim.of_counted (counted_simG H _ _ _ _ [vt] (by simp) (fun _ _ _ => by rfl)
+                          (by first | rfl | exact hdp) sz _
+                          (by first
+                            | exact iter_up _ _ sz hs (fun _ => rfl) (fun _ => rfl) sz 0 (by omega)
+                            | exact iter_down _ _ (fun _ => rfl) (fun _ => rfl) sz hs)
+                          f p1 s1 hR1 (by omega) (by omega) hp1) (fun _ => rfl) (fun _ => rfl)
+                  · simp only [h4, if_false, Out.bind_panic]
+                    exact GSim.panic _
+              · have n14 : ¬ toI8 t.toNat = 14 := fun h => hlist (Or.inl ((toI8_eq_tag t 14 (by omega)).mp h))
+                have n15 : ¬ toI8 t.toNat = 15 := fun h => hlist (Or.inr ((toI8_eq_tag t 15 (by omega)).mp h))
+                simp only [if_neg hstr, if_neg hst, if_neg hmap, if_neg hlist, n11, n12, n13, n14, n15, decide_false,
+                  if_false, Bool.false_eq_true, Bool.or_self]
                 exact GSim.perr N R p 1 _
 
 end TplG
